@@ -837,6 +837,19 @@ def run(ctx: vlib.Ctx):
                 ucases.append(union_case(pm, ref, members, v))
                 ulabels.append(f"Union[{', '.join(members)}] <- {v!r}"[:120])
 
+        # ---- type level: error-faithful typed unpackers (ErrsTy.ue) vs BasicDecoder / from_dict
+        from harness.props import c05_typed
+        tcases, tbad, tlog = c05_typed.run(ctx, ctx.budget(45, 500), ctx.budget(2, 3))
+        if tbad is None:
+            ctx.correspondence("c05_typed", len(tcases), -1, tlog)
+            ctx.not_shown("correspondence c05_typed", tlog)
+        else:
+            det = "; ".join(f"{c05_typed.gen.py_ann(tcases[i]['t'])} via {tcases[i]['entry'][0]} <- {tcases[i]['input']!r}: impl {tcases[i]['term']} ctx {tcases[i]['cx']}"[:400]
+                            for i in tbad[:6])
+            ctx.correspondence("c05_typed", len(tcases), len(tbad), det)
+            if tbad:
+                ctx.not_shown("correspondence c05_typed", f"{len(tbad)} of {len(tcases)} cases differ: {det}")
+        ctx.count(n=len(tcases))
         hic, hil = hier_section(ctx, rng, ctx.budget(120, 1500))
         run_corr(ctx, "c05_discr_history", hic,
                  "fun c => match c with (f, vs, ins, outs) => list_eqb res_eqb (discr_history f vs [] ins) outs end",
@@ -866,6 +879,21 @@ def _is_root_program(p: str, s: dict) -> bool:
 
 def replay(rep: dict) -> int:
     schema = rep["schema"]
+    if rep.get("entry", "").startswith("typed:"):
+        from harness import gen as HG
+        ns = HG.build_module(schema["source"])
+        ty = eval(rep["type_expr"], dict(ns))
+        d = eval(rep["input_expr"], dict(ns))
+        from mashumaro.codecs.basic import BasicDecoder
+        try:
+            r = ty.from_dict(d) if rep["entry"] == "typed:from_dict" else BasicDecoder(ty).decode(d)
+            got = HG.py_src(r)[:400]
+        except Exception as e:  # noqa: BLE001
+            got = type(e).__name__
+        print(f"{rep['type_expr']} <- {rep['input_expr']}: {got}")
+        print("recorded:", rep.get("outcome"), "|", rep.get("observed"))
+        print("REPRODUCED" if got == rep.get("outcome") else "not reproduced")
+        return 1 if got == rep.get("outcome") else 0
     if rep.get("entry") == "build":
         try:
             if schema.get("standalone"):
